@@ -97,7 +97,7 @@ func init() {
 			"(T2) row flow: the logic is built on, and its sources are prepended with, the row pulled from the child (a block threads its current row through its statements); the rows handed on are the child's row or the last logic row selected by shouldUseLogicResult; " +
 			"the input||updated layout written by buildSet is read back as the upper half by both readers; the old||new layout of UPDATE rows agrees between updateSourceIter (writer), updateIter (reader, RowUpdater.Update(old,new)) and the OLD/NEW scope that getTriggerLogic builds for every event; " +
 			"planbuilder and analyzer offer the same aliases (new / old) per event; the rows a DML iterator returns to an AFTER executor have the width of that event's scope; " +
-			"(T3) placement: for every DML node kind applyTrigger wraps the node's row source for BEFORE and the node itself for AFTER, the two analyzer switches (event detection, placement) cover exactly the node kinds whose build function opens a table editor and agree on the event; every editor operation a DML iterator performs is covered by the event the node is matched to; a trigger is selected only under a conjunction testing its table and its event; the roles of the executor's two children (child = first constructor parameter, logic = second; field, Children() index and accessor read from plan) are the roles buildTriggerExecutor, the selector of the placing transform (no descent into the logic of an executor placed earlier: otherwise the next trigger is also placed on DML inside that body) and the prepend selector use; " +
+			"(T3) placement: for every DML node kind applyTrigger wraps the node's row source for BEFORE and the node itself for AFTER, the two analyzer switches (event detection, placement) cover exactly the node kinds whose build function opens a table editor and agree on the event; every editor operation a DML iterator performs is covered by the event the node is matched to; a trigger is selected only under a conjunction testing its table and its event, and every placement arm tests the trigger's event and table against the node it is about to wrap (a subtree can hold DML nodes of several kinds and tables, e.g. the branches of an IF in a trigger body); the roles of the executor's two children (child = first constructor parameter, logic = second; field, Children() index and accessor read from plan) are the roles buildTriggerExecutor, the selector of the placing transform (no descent into the logic of an executor placed earlier: otherwise the next trigger is also placed on DML inside that body) and the prepend selector use; " +
 			"(T4) order: applyTriggers applies the triggers in the slice produced by the ordering function; OrderTriggers inserts a PRECEDES trigger at, a FOLLOWS trigger right after, the referenced one and splits the *reordered* slice; exactly the AFTER half is reversed before application (each application lands next to the DML node, so BEFORE triggers run in application order and AFTER triggers in reverse).",
 		NotCovered: "the values an arbitrary trigger body computes, reads or stores (expression evaluation, GetField index assignment by the analyzer, prepend-node execution); which plan shapes shouldUseLogicResult selects (it looks for SET NEW.x in the analysed body); run-time iteration counts beyond the path shape (e.g. a child that yields a row twice); " +
 			"rollback of the trigger's and the statement's effects through savepoints: AddTriggerRollbackIter logs and ignores CreateSavepoint errors and the in-memory session does not implement savepoints, so that half is not claimed; DELETE with explicit targets / multi-table trigger sets (refused by applyTrigger); foreign-key cascades and TRUNCATE do not fire triggers (as in MySQL) and are outside the tables checked here",
@@ -176,7 +176,7 @@ func c23DeclareRules(e *c23Env) {
 	c.Rule("C23-T5", "inside the statement: per iterator that executes trigger logic, a built logic iterator is closed on every path, and errors of build, Next and Close of the logic reach the caller (never discarded, never overwritten by a row return); Close of an executor closes its child on every path and hands on that error", e.floor(9))
 	c.Rule("C23-T2", "row flow: the logic is built on / prepended with the child's row (block: its current row), the drain loop keeps the last logic row, and every returned row is the child's row or the row selected from the last logic row", e.floor(8))
 	c.Rule("C23-L", "row layouts agree: buildSet writes input||updated and both readers take the upper half; UPDATE rows are old||new for the writer (updateSourceIter), the reader (updateIter: Update(old,new)) and the OLD/NEW scope of getTriggerLogic; planbuilder and analyzer offer the same aliases per event; rows returned to an AFTER executor have the width of the event's scope", e.floor(17))
-	c.Rule("C23-T3", "placement: applyTrigger wraps the DML node's row source for BEFORE and the node itself for AFTER; detection and placement switches cover exactly the node kinds that open a table editor and agree on the event; every editor operation of a DML iterator belongs to the node's event; the executor's child/logic roles (constructor fields, Children() index, accessors) are the ones the build function, the placing transform's selector and the prepend selector use; triggers are selected by table AND event", e.floor(22))
+	c.Rule("C23-T3", "placement: applyTrigger wraps the DML node's row source for BEFORE and the node itself for AFTER; detection and placement switches cover exactly the node kinds that open a table editor and agree on the event; every editor operation of a DML iterator belongs to the node's event; the executor's child/logic roles (constructor fields, Children() index, accessors) are the ones the build function, the placing transform's selector and the prepend selector use; triggers are selected by table AND event, and each placement arm tests the trigger's event and table against its node", e.floor(22))
 	c.Rule("C23-T4", "order: the application loop ranges over the ordering function's result; OrderTriggers inserts PRECEDES at / FOLLOWS after the referenced trigger and splits the reordered slice by time; exactly the AFTER half is reversed", e.floor(6))
 }
 
